@@ -253,6 +253,49 @@ def run(chk):
             chk.violation('particle-host-index-large', f'{len(phid)} particles over unsorted halos {big}: {nbad} host indices do not point to the halo the particle records (first at particle {first})', dict(slabs=big, per=per))
     except Exception as e:  # noqa
         chk.violation(f'large-table-raises-{type(e).__name__}', f'large particle table: {type(e).__name__}: {e}', {})
+    # ---- light-cone layout: one subsample slab, header taken from lc_halo_info.asdf (with the observer's origin); same alignment rules
+    try:
+        import asdf
+        for li, lslab in enumerate(([31, 10, 24, 17], [3, 10, 17], [45, 3])):
+            for lflags in ((False, False, False, False), (True, True, True, True)):
+                want_AB, want_shear, want_ranks, want_expvel = lflags
+                lbase = ((1 << 60) + 1) if li == 1 else 0
+                parts_all = write_case(root, [lslab], rng, want_ranks, lbase)
+                lcd = os.path.join(root, 'sim', SIM, 'z0.500')
+                os.makedirs(lcd, exist_ok=True)
+                asdf.AsdfFile({'header': {'H0': 67.0, 'BoxSize': 2000.0, 'ParticleMassHMsun': MPART, 'VelZSpace_to_kms': 75.0, 'LightConeOrigins': [[-990.0, -990.0, -990.0]]},
+                               'data': {'x': np.zeros(1)}}).write_to(os.path.join(lcd, 'lc_halo_info.asdf'))
+                sim_params = dict(sim_name=SIM, sim_dir=os.path.join(root, 'sim'), subsample_dir=os.path.join(root, 'subsample'), output_dir=os.path.join(root, 'out'), z_mock=0.5, force_mt=True, halo_lc=True)
+                HOD_params = dict(tracer_flags=dict(LRG=True, ELG=False, QSO=False), LRG_params={}, want_ranks=want_ranks, want_AB=want_AB, want_shear=want_shear, want_expvel=want_expvel, want_rsd=True)
+                desc = f'light-cone layout, slab with halo ids {"2**60+1+" if lbase else ""}{lslab} flags AB={want_AB} shear={want_shear} ranks={want_ranks} expvel={want_expvel}'
+                payload = dict(slabs=[lslab], flags=list(lflags), base=int(lbase), lightcone=True)
+                try:
+                    with warnings.catch_warnings():
+                        warnings.simplefilter('ignore')
+                        b = AbacusHOD(sim_params, HOD_params)
+                except Exception as e:  # noqa
+                    chk.violation(f'lightcone-raises-{type(e).__name__}', f'{desc}: {type(e).__name__}: {e}', payload)
+                    continue
+                nrun += 1
+                srt = sorted(lslab)
+                hidl = (np.asarray(b.halo_data['hid']).astype(np.int64) - np.int64(lbase)).tolist()
+                if hidl != srt:
+                    chk.violation('lightcone-ids-not-increasing', f'{desc}: staged hid {hidl} is not {srt}', payload)
+                    continue
+                for name in ('hpos', 'hvel', 'hmass', 'hmultis', 'hrandoms', 'hsigma3d', 'hc', 'hrvir') + (('hdeltac', 'hfenv') if want_AB else ()) + (('hshear',) if want_shear else ()):
+                    if not np.allclose(decode(name, b.halo_data[name]), np.asarray(srt, dtype=np.float64), rtol=1e-9, atol=1e-9):
+                        chk.violation(f'lightcone-misaligned-{name}', f'{desc}: rows of {name} are not aligned with hid', payload)
+                phid = np.asarray(b.particle_data['phid']).astype(np.int64) - np.int64(lbase)
+                pinds = np.asarray(b.particle_data['pinds']).astype(np.int64)
+                want_phid = [i for hs in parts_all for i in hs]
+                if phid.tolist() != want_phid:
+                    chk.violation('lightcone-particle-order', f'{desc}: particle host ids {phid.tolist()[:12]} are not those of the slab file {want_phid[:12]}', payload)
+                elif np.any(pinds < 0) or np.any(pinds >= len(srt)) or not np.array_equal(np.asarray(srt)[np.clip(pinds, 0, len(srt) - 1)], phid):
+                    chk.violation('lightcone-particle-host-index', f'{desc}: hid[pinds] != phid', payload)
+                if b.params.get('origin') is None or not np.allclose(b.params['origin'], [-990.0, -990.0, -990.0]):
+                    chk.violation('lightcone-origin', f'{desc}: params["origin"] = {b.params.get("origin")!r}, the header gives [-990, -990, -990]', payload)
+    except Exception as e:  # noqa
+        chk.violation(f'lightcone-block-raises-{type(e).__name__}', f'light-cone staging: {type(e).__name__}: {e}', {})
     # ---- extended coverage (beyond C12): the chunks of n_chunks <= nfiles tile the slab files (TLC: ChunkTheorem); union over chunks = every halo once
     try:
         et = "---- MODULE MC_HodChunks ----\nEXTENDS HodStaging\nVARIABLE v\nASSUME ChunkTheorem(16)\nInit == v = 0\nNext == v' = v\n====\n"
